@@ -346,6 +346,8 @@ def check_pattern(world, rec):
     """Every table cell (i, j) holds a condition iff samples i and j are different samples (by identity)."""
     from PEPit.constraint import Constraint
     for c in rec.table_calls:
+        if c.get("unknown"):
+            continue
         F = c["f"]
         tab = F.tables_of_constraints.get(c["name"])
         l1, l2 = c["l1"], c["l2"]
